@@ -103,6 +103,214 @@ pub fn named_lookup(m: &Model, ctx: &mut Ctx, rule: &str) {
     }
 }
 
+/// C07.named (enumerals): an identifier given as the value of an ENUMERATED type denotes the enumeral of *that* type. The arms
+/// of ASN1Value::link_with_type for (ENUMERATED, identifier) are evaluated with two enumerations defining the same enumeral,
+/// the governing one sorting last.
+pub fn enumeral_lookup(m: &Model, ctx: &mut Ctx, rule: &str) {
+    use std::collections::BTreeMap as Map;
+    let Some(f) = m.fns.iter().find(|f| f.name == "link_with_type" && f.self_ty.as_deref() == Some("ASN1Value")) else {
+        ctx.fail_closed(rule, "anchor not found: ASN1Value::link_with_type");
+        return;
+    };
+    ctx.func(&f.key);
+    let Some(mt) = model::matches_in(&f.block).into_iter().max_by_key(|mt| mt.arms.len()) else {
+        ctx.fail_closed(rule, "link_with_type: no match");
+        return;
+    };
+    let consts = const_resolver(m);
+    let named = |n: &str, fields: Vec<(&str, Val)>| Val::Ctor(n.to_string(), vec![], fields.into_iter().map(|(k, v)| (k.to_string(), v)).collect::<Map<_, _>>());
+    let defs: Vec<(&str, Vec<&str>)> = vec![("A-Enum", vec!["same", "other"]), ("M-Int", vec![]), ("Z-Enum", vec!["first", "same"])];
+    let defs2 = defs.clone();
+    let hook = move |_: &Evaluator, name: &str, a: &[Val]| -> Option<Result<Val, String>> {
+        match (name, a.first()) {
+            (".iter", Some(Val::Opaque(s))) | (".values", Some(Val::Opaque(s))) if s == "tlds" => Some(Ok(Val::List(defs2.iter().map(|(n, _)| {
+                let t = Val::Sym(format!("tld:{}", n));
+                if name == ".iter" { Val::Tuple(vec![Val::Str(n.to_string()), t]) } else { t }
+            }).collect()))),
+            (".has_enum_value", Some(Val::Sym(t))) => {
+                let tn = t.trim_start_matches("tld:");
+                let typed = match a.get(1) {
+                    Some(Val::Ctor(s, p, _)) if s == "Some" => match p.first() { Some(Val::Str(x)) => Some(x.clone()), _ => Some(String::new()) },
+                    _ => None,
+                };
+                let id = match a.get(2) { Some(Val::Str(x)) => x.clone(), _ => String::new() };
+                let has = defs2.iter().any(|(n, ms)| *n == tn && ms.contains(&id.as_str()));
+                Some(Ok(Val::Bool(has && typed.map(|x| x == tn).unwrap_or(true))))
+            }
+            (".name", Some(Val::Sym(t))) => Some(Ok(Val::Str(t.trim_start_matches("tld:").to_string()))),
+            _ => None,
+        }
+    };
+    let ev = Evaluator { consts: &consts, call_hook: &hook, inline: None };
+    let params: Vec<String> = f.sig.inputs.iter().filter_map(|a| match a { syn::FnArg::Typed(t) => Some(tok(&t.pat)), _ => None }).collect();
+    for nested in [false, true] {
+        let key = format!("enumeral-of-governing-type:{}", if nested { "nested" } else { "direct" });
+        ctx.oblige(rule, &key, true);
+        let ident = named("ElsewhereDeclaredValue", vec![("identifier", Val::Str("same".into())), ("parent", Val::none()), ("module", Val::none())]);
+        let value = if nested { named("LinkedNestedValue", vec![("supertypes", Val::List(vec![])), ("value", ident)]) } else { ident };
+        let ty = Val::Ctor("Enumerated".into(), vec![Val::Opaque("enumerated".into())], Map::new());
+        let mut env = Env::new();
+        env.insert("self".into(), value.clone());
+        env.insert(params.first().cloned().unwrap_or("tlds".into()), Val::Opaque("tlds".into()));
+        env.insert(params.get(1).cloned().unwrap_or("ty".into()), ty.clone());
+        env.insert(params.get(2).cloned().unwrap_or("type_name".into()), Val::some(Val::Str("Z-Enum".into())));
+        let r = ev.select_arm(&mt, &Val::Tuple(vec![ty, value]), &env).and_then(|(i, mut e2)| {
+            ev.eval(&mt.arms[i].body, &mut e2)?;
+            // the arm writes through the binding of the matched value (`*self = ..` / `**value = ..`)
+            let mut found = None;
+            for (_, v) in e2.iter() {
+                let sh = v.show();
+                if let Some(p) = sh.find("EnumeratedValue{") {
+                    found = Some(sh[p..].to_string());
+                }
+            }
+            found.ok_or_else(|| "the arm does not produce an EnumeratedValue".to_string())
+        });
+        match r {
+            Ok(sh) => {
+                if !sh.contains("enumerated:\"Z-Enum\"") {
+                    ctx.violate(rule, "enumeral-of-another-type", &f.file, crate::rules::util::span_line(&mt),
+                        &format!("`same` as a value of type Z-Enum (A-Enum ::= ENUMERATED {{ same, other }} sorts first) is linked as `{}`: it is the enumeral of the governing type — `v Z-Enum ::= same` would be emitted as `AEnum::same`", sh.chars().take(90).collect::<String>()));
+                }
+            }
+            Err(e) => ctx.fail_closed(rule, &format!("[{}]: {}", key, e)),
+        }
+    }
+}
+
+/// C07.cstring: "character strings with doubled quotes unescaped" starts with finding the end of the literal: the scanner
+/// behind raw_string_literal (take_until_and_not(QUOTE, QUOTE QUOTE)) is evaluated on the text after an opening quotation
+/// mark — the literal ends at the first quotation mark that is not doubled, whatever follows later in the file.
+pub fn cstring_end(m: &Model, ctx: &mut Ctx, rule: &str) {
+    let Some(f) = m.fns.iter().find(|f| f.name == "take_until_and_not" && f.module.starts_with("lexer")) else {
+        ctx.fail_closed(rule, "anchor not found: lexer::util::take_until_and_not");
+        return;
+    };
+    ctx.func(&f.key);
+    let consts = const_resolver(m);
+    let hook = |_: &Evaluator, name: &str, a: &[Val]| -> Option<Result<Val, String>> {
+        match (name, a.first()) {
+            // an Input is modelled by the text it stands for
+            (".slice", Some(Val::Str(s))) => match a.get(1) {
+                Some(Val::Ctor(n, p, _)) if n == "$range" => match p.first() {
+                    Some(Val::Int { v, .. }) if (*v as usize) <= s.len() && s.is_char_boundary(*v as usize) => Some(Ok(Val::Str(s[*v as usize..].to_string()))),
+                    _ => Some(Err("Input::slice out of range (the code would panic here)".into())),
+                },
+                _ => None,
+            },
+            (".find_substring", Some(Val::Str(s))) => match a.get(1) {
+                Some(Val::Str(t)) => Some(Ok(s.find(t.as_str()).map(|i| Val::some(Val::int(i as i128))).unwrap_or(Val::none()))),
+                _ => None,
+            },
+            (".take_split", Some(Val::Str(s))) => match a.get(1) {
+                Some(Val::Int { v, .. }) if (*v as usize) <= s.len() && s.is_char_boundary(*v as usize) => Some(Ok(Val::Tuple(vec![Val::Str(s[*v as usize..].to_string()), Val::Str(s[..*v as usize].to_string())]))),
+                _ => Some(Err("take_split out of range (the code would panic here)".into())),
+            },
+            (".into_inner", Some(Val::Str(s))) | (".inner", Some(Val::Str(s))) => Some(Ok(Val::Str(s.clone()))),
+            (".len", Some(Val::Str(s))) => Some(Ok(Val::int(s.len() as i128))),
+            _ => None,
+        }
+    };
+    let ev = Evaluator { consts: &consts, call_hook: &hook, inline: None };
+    let params: Vec<String> = f.sig.inputs.iter().filter_map(|a| match a { syn::FnArg::Typed(t) => Some(tok(&t.pat)), _ => None }).collect();
+    let q = "\"";
+    let cases: Vec<(String, Option<String>)> = vec![
+        (format!("abc{q} x"), Some("abc".into())),
+        (format!("abc{q}\ns2 UTF8String ::= {q}{q}\nEND"), Some("abc".into())),
+        (format!("{q} x"), Some("".into())),
+        (format!("{q}\nnext ::= {q}a{q}{q}b{q}"), Some("".into())),
+        (format!("a{q}{q}b{q} x"), Some(format!("a{q}{q}b"))),
+        (format!("a{q}{q}b{q} x {q}{q} y"), Some(format!("a{q}{q}b"))),
+        (format!("{q}{q}{q} x"), Some(format!("{q}{q}"))),
+        (format!("x{q}{q}{q}"), Some(format!("x{q}{q}"))),
+        (format!("{q}{q}y{q} z {q}w{q}"), Some(format!("{q}{q}y"))),
+        ("never closed".to_string(), None),
+    ];
+    for (text, want) in cases {
+        let key = format!("end-of-literal:{}", text.replace('\n', "~").chars().take(24).collect::<String>());
+        ctx.oblige(rule, &key, true);
+        let mut env = Env::new();
+        env.insert(params.first().cloned().unwrap_or("end_tag".into()), Val::Str(q.into()));
+        env.insert(params.get(1).cloned().unwrap_or("however_tag".into()), Val::Str(format!("{q}{q}")));
+        let got = ev.eval_fn_body(&f.block, &mut env).and_then(|c| match c {
+            Val::Closure(cl, cenv) => {
+                let mut e2 = (*cenv).clone();
+                for (k, v) in env.iter() {
+                    e2.entry(k.clone()).or_insert(v.clone());
+                }
+                ev.apply_closure(&syn::Expr::Closure((*cl).clone()), &[Val::Str(text.clone())], &e2)
+            }
+            o => Err(format!("take_until_and_not does not return a closure: {}", o.show())),
+        });
+        match got {
+            Ok(Val::Ctor(ok, p, _)) if ok == "Ok" => {
+                let lit = match p.first() { Some(Val::Tuple(t)) => match t.get(1) { Some(Val::Str(s)) => Some(s.clone()), _ => None }, _ => None };
+                if lit != want {
+                    ctx.violate(rule, "end-of-literal", &f.file, f.line,
+                        &format!("after an opening quotation mark, the text {:?} is scanned as the literal {:?}; the literal is {:?} (it ends at the first quotation mark that is not doubled)", text, lit, want));
+                }
+            }
+            Ok(Val::Ctor(e, _, _)) if e == "Err" => {
+                if want.is_some() {
+                    ctx.violate(rule, "end-of-literal", &f.file, f.line,
+                        &format!("after an opening quotation mark, the text {:?} is rejected; the literal is {:?} — a doubled quotation mark further down in the file must not matter", text, want));
+                }
+            }
+            Ok(o) => ctx.fail_closed(rule, &format!("[{}]: scanner result {}", key, o.show().chars().take(80).collect::<String>())),
+            Err(e) => ctx.fail_closed(rule, &format!("[{}]: {}", key, e)),
+        }
+    }
+}
+
+/// C07.list: "SEQUENCE OF values". `{ 5 }` is lexed as an OBJECT IDENTIFIER value (one arc); under a SEQUENCE OF / SET OF type it
+/// is the list with the single element 5. ASN1Value::link_with_type is evaluated on that pair (directly and below a type
+/// reference): the value must leave as a list of one INTEGER, while `{ 5 6 }` and named arcs stay what they are.
+pub fn single_element_list(m: &Model, ctx: &mut Ctx, rule: &str) {
+    use std::collections::BTreeMap as Map;
+    let Some(f) = m.fns.iter().find(|f| f.name == "link_with_type" && f.self_ty.as_deref() == Some("ASN1Value")) else {
+        ctx.fail_closed(rule, "anchor not found: ASN1Value::link_with_type");
+        return;
+    };
+    ctx.func(&f.key);
+    let consts = const_resolver(m);
+    let named = |n: &str, fields: Vec<(&str, Val)>| Val::Ctor(n.to_string(), vec![], fields.into_iter().map(|(k, v)| (k.to_string(), v)).collect::<Map<_, _>>());
+    let hook = |_: &Evaluator, name: &str, a: &[Val]| -> Option<Result<Val, String>> {
+        match name {
+            "Self::link_array_like" | "ASN1Value::link_array_like" | "link_array_like" => Some(Ok(Val::Ctor("Ok".into(), vec![Val::Ctor("LinkedArrayLikeValue".into(), vec![a.first().cloned().unwrap_or(Val::Unit)], Map::new())], Map::new()))),
+            "i128::try_from" | "i128::from" => match a.first() { Some(Val::Int { v, .. }) => Some(Ok(if name.ends_with("try_from") { Val::Ctor("Ok".into(), vec![Val::int(*v)], Map::new()) } else { Val::int(*v) })), _ => None },
+            ".as_slice" | ".as_mut" | ".as_ref" if a.len() == 1 => Some(Ok(a[0].clone())),
+            _ => None,
+        }
+    };
+    let ev = Evaluator { consts: &consts, call_hook: &hook, inline: None };
+    let params: Vec<String> = f.sig.inputs.iter().filter_map(|a| match a { syn::FnArg::Typed(t) => Some(tok(&t.pat)), _ => None }).collect();
+    let arc = |name: Option<&str>, n: Option<i128>| named("ObjectIdentifierArc", vec![("name", name.map(|x| Val::some(Val::Str(x.into()))).unwrap_or(Val::none())), ("number", n.map(|x| Val::some(Val::int(x))).unwrap_or(Val::none()))]);
+    let oid = |arcs: Vec<Val>| Val::Ctor("ObjectIdentifier".into(), vec![Val::Ctor("ObjectIdentifierValue".into(), vec![Val::List(arcs)], Map::new())], Map::new());
+    let list_ty = Val::Ctor("SequenceOf".into(), vec![named("SequenceOrSetOf", vec![("element_type", Val::Ctor("Integer".into(), vec![Val::Opaque("int".into())], Map::new()))])], Map::new());
+    for (what, value, want_list) in [
+        ("{ 5 }", oid(vec![arc(None, Some(5))]), true),
+        ("{ 5 } below a type reference", named("LinkedNestedValue", vec![("supertypes", Val::List(vec![Val::Str("List".into())])), ("value", oid(vec![arc(None, Some(5))]))]), true),
+    ] {
+        ctx.oblige(rule, what, true);
+        let mut env = Env::new();
+        env.insert("self".into(), value);
+        env.insert(params.first().cloned().unwrap_or("tlds".into()), Val::Opaque("tlds".into()));
+        env.insert(params.get(1).cloned().unwrap_or("ty".into()), list_ty.clone());
+        env.insert(params.get(2).cloned().unwrap_or("type_name".into()), Val::none());
+        match ev.eval_fn_body(&f.block, &mut env) {
+            Ok(_) => {
+                let after = env.get("self").map(|v| v.show()).unwrap_or_default();
+                let is_list = after.contains("LinkedArrayLikeValue(") && after.contains("Integer(5)") && !after.contains("ObjectIdentifier(");
+                if is_list != want_list {
+                    ctx.violate(rule, "single-element-list-is-an-oid", &f.file, f.line,
+                        &format!("the value `{}` of a SEQUENCE OF INTEGER leaves link_with_type as `{}`: lexically it is an OBJECT IDENTIFIER value, but under a list type it is the list with the one element 5 (it was emitted as Oid::const_new(&[5]) for `l List DEFAULT {{ 5 }}`)", what, after.chars().take(110).collect::<String>()));
+                }
+            }
+            Err(e) => ctx.fail_closed(rule, &format!("[{}]: {}", what, e)),
+        }
+    }
+}
+
 pub fn run(m: &Model, ctx: &mut Ctx) {
     ctx.explanation = "Only the table clauses of C07 are decided: \
 C07.hex: hex_to_bools equals the 16-row table over exactly the alphabet the hstring lexer accepts (MSB first), and the bstring form maps '1' to true and every other accepted digit to false; the B/H decision follows the suffix letter. \
@@ -385,6 +593,9 @@ Not applicable (run-time values): resolution of references, nested CHOICE/SEQUEN
     default_traversal(m, ctx);
     crate::rules::c06::named_first(m, ctx, "C07.named");
     named_lookup(m, ctx, "C07.named");
+    enumeral_lookup(m, ctx, "C07.named");
+    cstring_end(m, ctx, "C07.cstring");
+    single_element_list(m, ctx, "C07.list");
     oid(m, ctx, &ev);
     strings(m, ctx, &ev);
 }
